@@ -549,7 +549,7 @@ func ProbePoints(t *rapid.T, label string, v []P, n int) []P {
 			// cell centre / corner near a vertex
 			q := v[rapid.IntRange(0, len(v)-1).Draw(t, label+".ci")].Pt()
 			lvl := rapid.IntRange(0, 30).Draw(t, label+".cl")
-			id := s2.CellIDFromPoint(q).Parent(lvl)
+			id := s2.CellFromPoint(q).ID().Parent(lvl)
 			if rapid.Bool().Draw(t, label+".cc") {
 				p = id.Point()
 			} else {
